@@ -70,3 +70,14 @@ impl UnionFind {
         self.inner.len()
     }
 }
+
+#[cfg(feature = "verif-hooks")]
+impl UnionFind {
+    /// Verification hook (C04): every slot as it stands, together with what
+    /// `find_ref` answers for its index. Read-only.
+    pub fn verif_c04_slots(&self) -> Vec<(Type, Type)> {
+        (0..self.inner.len())
+            .map(|i| (self.inner[i].clone(), self.find_ref(i).clone()))
+            .collect()
+    }
+}
